@@ -164,7 +164,7 @@ impl Prop for EquivProp {
             .into_iter()
             .map(|(a, d)| {
                 let n = alpha(a).len() as u64;
-                Seg { name: format!("{a}+rw^{d}"), count: n.pow(d), what: format!("one index = one sequence of {d} operations over the {n}-operation alphabet {a} + 3 rewrite-iteration operations, executed under 5 slot-naming schemes") }
+                Seg { name: format!("{a}+rw^{d}"), count: n.pow(d), what: format!("one index = one sequence of {d} operations over the {n}-operation alphabet {a} + 4 rewrite-iteration operations, executed under 5 slot-naming schemes") }
             })
             .collect()
     }
@@ -172,7 +172,7 @@ impl Prop for EquivProp {
         vec!["history_with_symmetry", "history_with_redundancy", "history_with_rewrite_iteration", "history_with_binder"]
     }
     fn rule(&self) -> String {
-        "Every ordered sequence of the stated length over union/insert operations plus three rewrite-iteration operations is executed six times, each in a fresh thread, with all slot names of all inputs replaced through an injective map: numeric, numeric with reversed order, textual names that sort opposite to the numeric originals, names of the library's own fresh form $f<n> (far above the counter, and exactly the next unissued index), and numeric shifted by 1000. The observation mapped back through the renaming must be identical to the numeric run: every eq answer over tracked (sub)terms x relative namings, slots of every returned invocation, per-term slot set and symmetry count after canonicalisation, the whole ProgressMeasure, node count, class profile, min-size analysis datum, and best cost under AstSize and a per-operator weighted cost. Non-trivial = sequence whose numeric run did not panic.".into()
+        "Every ordered sequence of the stated length over union/insert operations plus four rewrite-iteration operations (one of them with patterns that repeat a slot) is executed six times, each in a fresh thread, with all slot names of all inputs replaced through an injective map: numeric, numeric with reversed order, textual names that sort opposite to the numeric originals, names of the library's own fresh form $f<n> (far above the counter, and exactly the next unissued index), and numeric shifted by 1000. The observation mapped back through the renaming must be identical to the numeric run: every eq answer over tracked (sub)terms x relative namings, slots of every returned invocation, per-term slot set and symmetry count after canonicalisation, the whole ProgressMeasure, node count, class profile, min-size analysis datum, and best cost under AstSize and a per-operator weighted cost. Non-trivial = sequence whose numeric run did not panic.".into()
     }
     fn assumptions(&self) -> Vec<String> {
         vec!["a run that panics under one naming but not another is reported as a violation of C11; a run that panics under all namings alike is counted as aborted".into()]
